@@ -473,7 +473,7 @@ def assemble_item(d, info, src, srcfile_label, log):
                         k_, v_ = part.split("=")
                         bv_types[k_.strip()] = v_.strip()
                 if not it["let_loops"]:
-                    raise Undecided(f"{d.path}: desugar(break_value) but no `let x = loop` found")
+                    continue  # nothing to desugar: the construct is gone from the source, the text is taken as it is
                 for ll in it["let_loops"]:
                     ls, le = ll["local"]
                     ps, pe = ll["pat"]
@@ -500,7 +500,7 @@ def assemble_item(d, info, src, srcfile_label, log):
             elif o == "desugar(or_guard)":
                 # `A | B if g => body` -> `A if g => body, B if g => body` (Verus: or-pattern with a guard unsupported)
                 if not it.get("or_guards"):
-                    raise Undecided(f"{d.path}: desugar(or_guard) but no such match arm found")
+                    continue  # nothing to desugar: the construct is gone from the source, the text is taken as it is
                 for og in it["or_guards"]:
                     a0, a1 = og["arm"]
                     if og["comma_end"] > 0:
@@ -513,7 +513,8 @@ def assemble_item(d, info, src, srcfile_label, log):
                 # `match x { P if g => e1, _ => e2 }` -> `match x { P => if g { e1 } else { e2 }, _ => e2 }`
                 # (Verus loses track of `*self` in a guarded arm that mutates it)
                 if not it.get("guard_wilds"):
-                    raise Undecided(f"{d.path}: desugar(guard_wild) but no `P if g => .., _ => ..` match found")
+                    # nothing to desugar (the construct is gone from the source): the text is taken as it is
+                    continue
                 for gw in it["guard_wilds"]:
                     g = src[gw["guard"][0]:gw["guard"][1]].decode()
                     e2 = src[gw["else_body"][0]:gw["else_body"][1]].decode()
@@ -523,12 +524,12 @@ def assemble_item(d, info, src, srcfile_label, log):
             elif o == "desugar(wild)":
                 # `_` as a closure or function parameter -> a fresh identifier (Verus rejects `_` parameters)
                 if not it.get("wilds"):
-                    raise Undecided(f"{d.path}: desugar(wild) but no `_` parameter found")
+                    continue  # nothing to desugar: the construct is gone from the source, the text is taken as it is
                 for k_, (a, b) in enumerate(it["wilds"]):
                     add(a, b, f"_w{k_}", "DESUGAR_WILD_PARAM")
             elif o == "desugar(ref_pat)":
                 if not it["ref_pats"]:
-                    raise Undecided(f"{d.path}: desugar(ref_pat) but no `&ident` pattern found")
+                    continue  # nothing to desugar: the construct is gone from the source, the text is taken as it is
                 for rp in it["ref_pats"]:
                     if rp.get("guard"):
                         raise Undecided(f"{d.path}: ref pattern in a guarded arm is outside the desugaring rule")
